@@ -591,7 +591,7 @@ def spawn_layer_in_subprocess(result, script_parts, options, features,
         errlines = stderr_buf[0].splitlines()
         erriter = iter(errlines)
         nfail = nerr = 0
-        for line in erriter:
+        for index, line in enumerate(errlines):
             try:
                 # The number of skipped tests is an optional fourth field.
                 counts = [int(field) for field in line.strip().split()]
@@ -599,6 +599,12 @@ def spawn_layer_in_subprocess(result, script_parts, options, features,
             except ValueError:
                 continue
             else:
+                if len(errlines) - index - 1 < nfail_ + nerr_:
+                    # Not followed by all the names it announces: the
+                    # report was cut short (or this is not the header).
+                    # Never use partial data.
+                    continue
+                erriter = iter(errlines[index + 1:])
                 result.num_ran, nfail, nerr = nran, nfail_, nerr_
                 skipped.extend([(None, None)] * nskip)
                 break
